@@ -20,6 +20,8 @@ structure WfFrame (f : Frame) : Prop where
   id_lt : f.id < idBound
   ctx_lt : f.ctx < idBound
   nul : NulFree f.topic
+  /-- its JSON reads back: nothing stored can poison later reads (C12) -/
+  dec : f.decodable = true
 
 theorem hasNul_eq_false_iff {t : List Nat} : hasNul t = false ↔ NulFree t := by
   unfold hasNul NulFree
